@@ -324,6 +324,190 @@ def Ctx.inSync (c : Ctx) : Bool := c.depth == 0 && c.built == c.cfg
 
 end Preserve
 
+/-! ### lists of networks: multi-agent algorithms keep one network per sub-agent
+
+  `Mutations.load_state_dicts` / `reinit_from_mutated` (list branch) / `_apply_arch_mutation` (list branch) of
+  agilerl/hpo/mutation.py.  A list of networks is a list of states; every loop works position by position. -/
+namespace Preserve
+section lists
+variable {α β γ δ σ κ : Type}
+
+/-- entries of the target after a non-strict `load_state_dict`: a same-named entry of equal shape is copied -/
+def looseEntries (sd l : Params α) : Params α :=
+  l.map fun kt =>
+    match lookup sd kt.1 with
+    | some s => if s.shape = kt.2.shape then (kt.1, s) else kt
+    | none => kt
+
+/-- torch reports a size mismatch (missing / unexpected keys are ignored when `strict=False`) -/
+def looseErr (sd l : Params α) : Bool :=
+  l.any fun kt =>
+    match lookup sd kt.1 with
+    | some s => !decide (s.shape = kt.2.shape)
+    | none => false
+
+/-- `target.load_state_dict(sd, strict=False)`; `none` = RuntimeError -/
+def loadLoose (target : NetState α) (sd : Params α) : Option (NetState α) :=
+  if looseErr sd target.params || looseErr sd target.buffers then none
+  else some { params := looseEntries sd target.params, buffers := looseEntries sd target.buffers }
+
+/-- `state_dict()`: parameters, then buffers -/
+def stateDict (n : NetState α) : Params α := n.params ++ n.buffers
+
+/-- an in-place loop over `zip(xs, ys)`: element k of `xs` becomes `f xs[k] ys[k]` while both lists last, the rest of
+    `xs` is not touched; `none` = some iteration raises -/
+def zipInPlace (f : β → γ → Option β) : List β → List γ → Option (List β)
+  | x :: xs, y :: ys =>
+    match f x y, zipInPlace f xs ys with
+    | some a, some r => some (a :: r)
+    | _, _ => none
+  | xs, _ => some xs
+
+/-- `[f(x) for x in xs]` with the k-th fresh object: stops at the shorter list -/
+def zipM (f : β → γ → Option δ) : List β → List γ → Option (List δ)
+  | x :: xs, y :: ys =>
+    match f x y, zipM f xs ys with
+    | some a, some r => some (a :: r)
+    | _, _ => none
+  | _, _ => some []
+
+/-- `Mutations.load_state_dicts(modules, state_dicts, remove_prefix)` -/
+def loadList (rcp : Params α → Params α) (strip : Bool) (mods : List (NetState α)) (sds : List (Params α)) :
+    Option (List (NetState α)) :=
+  zipInPlace (fun m sd => loadLoose m (if strip then rcp sd else sd)) mods sds
+
+/-- `Mutations.reinit_from_mutated(offspring)` for a list: `fresh[k]` is `type(o_k)(**o_k.init_dict)` -/
+def reinitList (rcp : Params α → Params α) (strip : Bool) (offs fresh : List (NetState α)) :
+    Option (List (NetState α)) :=
+  loadList rcp strip (List.zipWith (fun _ n => n) offs fresh) (offs.map stateDict)
+
+/-- one iteration of `_apply_arch_mutation` on sub-agent `i`'s network object: (object afterwards, applied method,
+    returned keyword dict).  `clear` = the two stores `last_mutation_attr = None; last_mutation = None`. -/
+def applyAt {ο : Type} (call : ο → String → κ → Option (ο × Option κ)) (clear : ο → ο) (lastAttr : ο → Option String)
+    (empty : κ) (ms : List (Option String)) (kws : List κ) (i : Nat) (o : ο) : Option (ο × Option String × κ) :=
+  match ms[i]? with
+  | none => none                                            -- IndexError
+  | some none => some (clear o, none, empty)                -- nothing to apply to this sub-agent
+  | some (some s) =>
+    match kws[i]? with
+    | none => none
+    | some kw =>
+      match call o s kw with
+      | none => none
+      | some r => some (r.1, lastAttr r.1, r.2.getD empty)
+
+/-- the loop `for i, net in enumerate(networks)` from position `i` on -/
+def applyLoop {ο : Type} (call : ο → String → κ → Option (ο × Option κ)) (clear : ο → ο) (lastAttr : ο → Option String)
+    (empty : κ) (ms : List (Option String)) (kws : List κ) : Nat → List ο → Option (List ο × List (Option String) × List κ)
+  | _, [] => some ([], [], [])
+  | i, o :: os =>
+    match applyAt call clear lastAttr empty ms kws i o, applyLoop call clear lastAttr empty ms kws (i + 1) os with
+    | some a, some r => some (a.1 :: r.1, a.2.1 :: r.2.1, a.2.2 :: r.2.2)
+    | _, _ => none
+
+/-- `_apply_arch_mutation(networks, mut_method, applied_mut_dict)` for a list: a single method (or None) is applied to
+    every sub-agent, a list of methods position by position; no keyword dicts = an empty dict each -/
+def applyList {ο : Type} (call : ο → String → κ → Option (ο × Option κ)) (clear : ο → ο) (lastAttr : ο → Option String)
+    (empty : κ) (nets : List ο) (meth : Option String ⊕ List (Option String)) (kws : Option (List κ)) :
+    Option (List ο × List (Option String) × List κ) :=
+  let ms := match meth with
+    | .inl m => List.replicate nets.length m
+    | .inr l => l
+  let ks := match kws with
+    | none => List.replicate nets.length empty
+    | some l => l
+  applyLoop call clear lastAttr empty ms ks 0 nets
+
+end lists
+
+/-! ### the mutation decorator: `MutationContext` / `_mutation_wrapper` of agilerl/modules/base.py
+
+  Every advertised mutation method of a module instance is replaced by `wrapped`, which runs the raw method inside a
+  `MutationContext`.  Closed form of what `__enter__` / `__exit__` do to the module's bookkeeping; calls of
+  `recreate_network(**kw)` and of the mutation hook are recorded in `log`. -/
+namespace Deco
+
+structure Meth where
+  name : String
+  kwargs : List (String × String)          -- `_recreate_kwargs` of the `@mutation(type, **recreate_kwargs)` decorator
+deriving Repr, DecidableEq
+
+inductive DEv where
+  | recreate (kwargs : List (String × String))
+  | hook
+deriving Repr, DecidableEq
+
+structure Mod where
+  depth : Int                       -- `_mutation_depth`
+  last : Option Meth                -- `last_mutation`
+  lastAttr : Option String          -- `last_mutation_attr`
+  methods : List String             -- `mutation_methods` (the advertised ones)
+  forwarded : Bool                  -- `_mutations_forwarded` (module inside an EvolvableWrapper)
+  isWrapper : Bool
+  hasHook : Bool
+  recreateParams : List String      -- parameter names of this module's `recreate_network`
+  log : List DEv
+deriving Repr, DecidableEq
+
+def splitAux (sep : Char) : List Char → List Char → List (List Char)
+  | [], cur => [cur.reverse]
+  | c :: cs, cur => if c = sep then cur.reverse :: splitAux sep cs [] else splitAux sep cs (c :: cur)
+
+/-- `s.split(".")` -/
+def splitDot (s : String) : List String := (splitAux '.' s.toList []).map String.ofList
+
+/-- `"." in s` -/
+def dotted (s : String) : Bool := hasInfix ['.'] s.toList
+
+/-- `__enter__` -/
+def enter (m : Mod) (meth : Meth) (attr : String) : Mod :=
+  { m with depth := m.depth + 1, last := some meth, lastAttr := some attr }
+
+/-- `_resolve_final_mutation_attr`.  `nested` = `last_mutation_attr` of the nested module reached by `getattr` along
+    all but the last component of a dotted `last_mutation_attr` (`none` = AttributeError); `wrappedLast` =
+    `self.module.wrapped.last_mutation_attr`. -/
+def resolve (m : Mod) (nested : Option (Option String)) (wrappedLast : Option String) : Option (Option String) :=
+  match m.lastAttr with
+  | some a =>
+    if dotted a then
+      match nested with
+      | none => none
+      | some none => some none
+      | some (some n) => some (some (".".intercalate ((splitDot a).take ((splitDot a).length - 1) ++ [n])))
+    else if m.isWrapper then some wrappedLast else some (some a)
+  | none => if m.isWrapper then some wrappedLast else some none
+
+/-- does `__exit__` re-create the network: only at the outermost level, for an applied method of this module itself -/
+def recreates (m : Mod) (fin : Option String) : Bool :=
+  match fin with
+  | some a => !dotted a && !m.isWrapper
+  | none => false
+
+/-- `__exit__` -/
+def exit (m : Mod) (meth : Meth) (nested : Option (Option String)) (wrappedLast : Option String)
+    (methodOf : String → Meth) : Option Mod :=
+  if m.depth - 1 ≠ 0 then some { m with depth := m.depth - 1 }
+  else
+    match resolve m nested wrappedLast with
+    | none => none
+    | some fin =>
+      some { m with
+        depth := 0
+        lastAttr := fin
+        last := match fin with | some a => some (methodOf a) | none => m.last
+        log := m.log
+          ++ (if recreates m fin then [DEv.recreate (meth.kwargs.filter fun c => decide (c.1 ∈ m.recreateParams))] else [])
+          ++ (if m.hasHook then [DEv.hook] else []) }
+
+/-- the body of `wrapped` after `__enter__`: a disabled method is a no-op that clears the record, a dotted attribute is
+    forwarded to the nested module's own wrapped method, otherwise the raw method runs -/
+def wrapBody {ρ : Type} (retNone : ρ) (m0 : Mod) (attr : String) (bodyOut nestedOut : Mod × ρ) : Mod × ρ :=
+  if attr ∉ m0.methods ∧ m0.forwarded = false then ({ m0 with lastAttr := none, last := none }, retNone)
+  else if dotted attr then nestedOut else bodyOut
+
+end Deco
+end Preserve
+
 /-! ### line protocol -/
 namespace Preserve
 open Util
@@ -431,6 +615,28 @@ def step (s : IOState) : List String → IOState × String
     | "0", some es => let c := Ctx.run false ⟨0, 0, 0⟩ es; (s, s!"{c.depth} {showBool c.inSync}")
     | "1", some es => let c := Ctx.run true ⟨0, 0, 0⟩ es; (s, s!"{c.depth} {showBool c.inSync}")
     | _, _ => (s, "bad-op")
+  -- the mutation decorator, one outermost call of a wrapped method from depth 0:
+  -- `deco <attr> <advertised 0|1> <forwarded 0|1> <wrapper 0|1> <hook 0|1> <bodyLast> <nested> <wrappedLast>`
+  -- (`-` = None, `!` = AttributeError for <nested>; bodyLast = last_mutation_attr when the raw method returns)
+  -- answer: `<final last_mutation_attr> <number of recreate_network calls> <number of hook calls> <depth>`
+  | ["deco", attr, adv, fwd, wr, hk, bodyLast, nested, wrappedLast] =>
+    let b? : String → Option Bool := fun w => match w with | "0" => some false | "1" => some true | _ => none
+    let o : String → Option String := fun w => if w = "-" then none else some w
+    match b? adv, b? fwd, b? wr, b? hk with
+    | some adv, some fwd, some wr, some hk =>
+      let meth : Deco.Meth := ⟨attr, []⟩
+      let m : Deco.Mod := { depth := 0, last := none, lastAttr := none, methods := if adv then [attr] else [],
+                            forwarded := fwd, isWrapper := wr, hasHook := hk, recreateParams := [], log := [] }
+      let m0 := Deco.enter m meth attr
+      let out := Deco.wrapBody () m0 attr ({ m0 with lastAttr := o bodyLast }, ()) (m0, ())
+      let nst : Option (Option String) := if nested = "!" then none else some (o nested)
+      match Deco.exit out.1 meth nst (o wrappedLast) (fun a => ⟨a, []⟩) with
+      | none => (s, "reject")
+      | some m1 =>
+        let nr := (m1.log.filter fun e => match e with | .recreate _ => true | .hook => false).length
+        let nh := (m1.log.filter fun e => match e with | .recreate _ => false | .hook => true).length
+        (s, s!"{(m1.lastAttr).getD "-"} {nr} {nh} {m1.depth}")
+    | _, _, _, _ => (s, "bad-op")
   -- strict load_state_dict of the registered `old` entries into the registered `tgt` entries
   | ["load"] =>
     if s.tgt == s.old then (s, "ok") else (s, "reject")
